@@ -1,4 +1,5 @@
 import PynetVerif.Model.Ctx
+import PynetVerif.Gen.Glue
 import PynetVerif.Lemmas.Ctx
 import PynetVerif.Props.C18
 import PynetVerif.Gen.Dimse
@@ -130,5 +131,9 @@ command-set fragment (`DIMSEMessage.context_id`, set by `decode_msg`): that, and
 later PDV of the same P-DATA, is what `receive_primitive` files the message under (syntax fact
 regenerated from dimse.py on every run; the harness sends messages with mixed ids) -/
 theorem C19_routes_by_command_context : Gen.Dimse.recvContextSource = "message.context_id" := by decide
+
+/-- `_c_store_scp` looks the context of a C-STORE sub-operation up by the id the request arrived on
+(`context_id=req._context_id`), not by SOP class alone (regenerated from association.py) -/
+theorem C19_substore_lookup_by_request_id : Gen.Glue.subStoreById = true := by decide
 
 end PynetVerif
